@@ -46,6 +46,9 @@ type Thread struct {
 
 func (t *Thread) Site() string { return t.site }
 
+// Pick is pick for drivers that resume threads themselves.
+func (s *Sched) Pick(el []*Thread) *Thread { return s.pick(el) }
+
 // pick draws one of the threads, proportionally to their weights; with all
 // weights at the default it consumes exactly one uniform draw.
 func (s *Sched) pick(el []*Thread) *Thread {
@@ -135,6 +138,9 @@ func (s *Sched) self() *Thread {
 }
 
 func (s *Sched) IsSimThread() bool { return s.self() != nil }
+
+// Current returns the sim thread the caller runs on (nil off sim threads).
+func (s *Sched) Current() *Thread { return s.self() }
 
 // InBubble: bubble worlds set Quiesce.
 func (s *Sched) InBubble() bool { return s.Quiesce != nil }
